@@ -16,7 +16,33 @@ from sa import report  # noqa: E402
 from sa.context import Context  # noqa: E402
 
 
+def locals_reference():
+    """sa/reference/locals.json: the local names (with the shape of their first binding) of every function of the tree
+    the rule instances were confirmed on; sa/names.py renames a later tree's locals to these before the rules look."""
+    import ast
+    from sa import names, normal
+    os.environ["VERIF_NORMAL"] = "doc,ann,cmp,flip,early"
+    mods = {}
+    root = "/repo"
+    for d, _, files in os.walk(os.path.join(root, "swcgeom")):
+        for f in sorted(files):
+            if f.endswith(".py"):
+                p = os.path.join(d, f)
+                rel = os.path.relpath(p, root)[:-3].replace(os.sep, ".")
+                if rel.endswith(".__init__"):
+                    rel = rel[: -len(".__init__")]
+                mods[rel] = normal.normalise(ast.parse(open(p, encoding="utf-8").read()), "")
+    del os.environ["VERIF_NORMAL"]
+    ref = names.make_reference(mods)
+    with open(names.REF_PATH, "w", encoding="utf-8") as f:
+        json.dump(ref, f, indent=0, sort_keys=True)
+    print("written", names.REF_PATH, sum(len(v) for v in ref.values()), "functions")
+
+
 def main():
+    if "--locals" in sys.argv:
+        locals_reference()
+        return
     out = {}
     for i in range(1, 21):
         prop = f"C{i:02d}"
